@@ -5,9 +5,11 @@ from .. import vlib
 TRUSTED = [
     "Lean 4.33 kernel; axioms per theorem listed under coverage.axioms (subset of propext, Classical.choice, Quot.sound)",
     "translate/cellvol.py (calculateCellVol.cpp: permutation/pqr tables, C, cprod, denom -> Gen/CellVol.lean), cross-checked bit-exactly by the correspondence (grid.vol / grid.cells)",
+    "translate/gridcopy.py (EclipseGrid.cpp: what resetACTNUM()/resetACTNUM(const int*) do with active_volume, what EclipseGrid(src, zcorn, actnum) does with m_input_zcorn, shape of activeVolume/getCellVolume/save -> Gen/GridCopy.lean), cross-checked by the correspondence (grid.seq: operation sequences on one object)",
     "harness/grid.cpp + lib/vlib.py differ; model driver (compiled Lean, IEEE double, same operation order as the C++)",
-    "modelled, not verified: COORD/ZCORN generation is modelled in gather form (value of entry idx) against the scatter/push_back loops of the C++ — tied by comparing the complete arrays bit for bit; fixupZCORN is executed in the model but no theorem is stated about it",
-    "observed only: independence of OMP_NUM_THREADS (1, 4, 16 compared bit for bit on the real code); Float ~ field (theorems are over a field of characteristic 0); float narrowing in EGRID files; formatted EGRID (property-mode round trip only)",
+    "modelled, not verified: COORD/ZCORN generation and fixupZCORN are modelled in gather form (value of entry idx; per-line running clamp) against the scatter/push_back/in-place loops of the C++ — tied by comparing the complete arrays (and cells_adjusted) bit for bit",
+    "object model (Model/GridState.lean): members active_volume, m_actnum + maps, m_coord/m_zcorn, zcorn_fixed, m_input_coord/m_input_zcorn; operations activeVolume, resetACTNUM(), resetACTNUM(mask), EclipseGrid(src, zcorn, actnum), EclipseGrid(src, actnum), save, EclipseGrid(file); other mutators (MINPV/PINCH setters, aquifer cells, LGRs) are outside",
+    "observed only: independence of OMP_NUM_THREADS (1, 4, 16 compared bit for bit on the real code); Float ~ field (theorems are over a field of characteristic 0); float narrowing in EGRID files; formatted EGRID (property-mode round trip only, incl. NNC lists through EclIO::EGrid::get_nnc_ijk)",
     "outside the model: MINPV/PINCH, radial/spider grids, LGRs, numerical aquifer cells, GRIDUNIT rescaling of decks",
 ]
 
@@ -18,7 +20,15 @@ def run(ctx):
         "ACTNUM > 0 means active (as in resetACTNUM); no AQUNUM cells",
         "nz >= 1 for DX/DY/DZ/TOPS input (the C++ indexes layer nz-1)",
     ]
-    ctx.stage_translate(["cellvol", "eclio"])
+    ctx.stage_translate(["cellvol", "eclio", "gridcopy"])
+    try:
+        gen = open(os.path.join(vlib.LEAN, "OpmVerif", "Gen", "GridCopy.lean")).read()
+        if "copyZInputZcorn : InputZcorn := .keep" in gen:
+            ctx.notes.append("Gen/GridCopy.lean: EclipseGrid(src, zcorn, actnum) keeps the source's m_input_zcorn in this tree: "
+                             "save() of such a copy writes the old ZCORN (finding C13.zcorn_copy_stale_save, candidate fix design.d/C13.fix.patch); "
+                             "the model follows the source (Props.C13.save_writes_current_geometry carries the side condition, copyZ_keep_breaks_save is the witness)")
+    except OSError:
+        pass
     if not ctx.stage_build_opm():
         return ctx.finish(trusted_base=TRUSTED)
     ok, exe, out = vlib.build_harness("grid")
